@@ -2252,6 +2252,48 @@ func (d *Document) parseParagraphProperties(decoder *xml.Decoder, paragraph *Par
 					return err
 				}
 				d.setSectionProperties(sectPr)
+			case "keepNext":
+				paragraph.Properties.KeepNext = &KeepNext{Val: getAttributeValue(t.Attr, "val")}
+				if err := d.skipElement(decoder, t.Name.Local); err != nil {
+					return err
+				}
+			case "keepLines":
+				paragraph.Properties.KeepLines = &KeepLines{Val: getAttributeValue(t.Attr, "val")}
+				if err := d.skipElement(decoder, t.Name.Local); err != nil {
+					return err
+				}
+			case "pageBreakBefore":
+				paragraph.Properties.PageBreakBefore = &PageBreakBefore{Val: getAttributeValue(t.Attr, "val")}
+				if err := d.skipElement(decoder, t.Name.Local); err != nil {
+					return err
+				}
+			case "widowControl":
+				paragraph.Properties.WidowControl = &WidowControl{Val: getAttributeValue(t.Attr, "val")}
+				if err := d.skipElement(decoder, t.Name.Local); err != nil {
+					return err
+				}
+			case "outlineLvl":
+				paragraph.Properties.OutlineLevel = &OutlineLevel{Val: getAttributeValue(t.Attr, "val")}
+				if err := d.skipElement(decoder, t.Name.Local); err != nil {
+					return err
+				}
+			case "snapToGrid":
+				paragraph.Properties.SnapToGrid = &SnapToGrid{Val: getAttributeValue(t.Attr, "val")}
+				if err := d.skipElement(decoder, t.Name.Local); err != nil {
+					return err
+				}
+			case "pBdr":
+				border, err := d.parseParagraphBorder(decoder)
+				if err != nil {
+					return err
+				}
+				paragraph.Properties.ParagraphBorder = border
+			case "tabs":
+				tabs, err := d.parseTabs(decoder)
+				if err != nil {
+					return err
+				}
+				paragraph.Properties.Tabs = tabs
 			default:
 				if err := d.skipElement(decoder, t.Name.Local); err != nil {
 					return err
@@ -2260,6 +2302,77 @@ func (d *Document) parseParagraphProperties(decoder *xml.Decoder, paragraph *Par
 		case xml.EndElement:
 			if t.Name.Local == "pPr" {
 				return nil
+			}
+		}
+	}
+}
+
+// parseParagraphBorder 解析段落边框
+func (d *Document) parseParagraphBorder(decoder *xml.Decoder) (*ParagraphBorder, error) {
+	border := &ParagraphBorder{}
+
+	for {
+		token, err := decoder.Token()
+		if err != nil {
+			return nil, WrapError("parse_paragraph_border", err)
+		}
+
+		switch t := token.(type) {
+		case xml.StartElement:
+			line := &ParagraphBorderLine{
+				Val:   getAttributeValue(t.Attr, "val"),
+				Color: getAttributeValue(t.Attr, "color"),
+				Sz:    getAttributeValue(t.Attr, "sz"),
+				Space: getAttributeValue(t.Attr, "space"),
+			}
+
+			switch t.Name.Local {
+			case "top":
+				border.Top = line
+			case "left":
+				border.Left = line
+			case "bottom":
+				border.Bottom = line
+			case "right":
+				border.Right = line
+			}
+
+			if err := d.skipElement(decoder, t.Name.Local); err != nil {
+				return nil, err
+			}
+		case xml.EndElement:
+			if t.Name.Local == "pBdr" {
+				return border, nil
+			}
+		}
+	}
+}
+
+// parseTabs 解析制表符设置
+func (d *Document) parseTabs(decoder *xml.Decoder) (*Tabs, error) {
+	tabs := &Tabs{}
+
+	for {
+		token, err := decoder.Token()
+		if err != nil {
+			return nil, WrapError("parse_tabs", err)
+		}
+
+		switch t := token.(type) {
+		case xml.StartElement:
+			if t.Name.Local == "tab" {
+				tabs.Tabs = append(tabs.Tabs, TabDef{
+					Val:    getAttributeValue(t.Attr, "val"),
+					Leader: getAttributeValue(t.Attr, "leader"),
+					Pos:    getAttributeValue(t.Attr, "pos"),
+				})
+			}
+			if err := d.skipElement(decoder, t.Name.Local); err != nil {
+				return nil, err
+			}
+		case xml.EndElement:
+			if t.Name.Local == "tabs" {
+				return tabs, nil
 			}
 		}
 	}
